@@ -15,14 +15,34 @@ def parseState (s : String) : Option PState :=
   if s == "u" then some .u else if s == "d" then some .d
   else if s == "r" then some .r else if s == "i" then some .i else none
 
-def parseBeh (s : String) : Option Beh :=
+def parseCType (s : String) : Option CType :=
   match s with
-  | "ok" => some .ok | "oka" => some .oka | "e" => some .e | "np" => some .np | "npx" => some .npx | "ap" => some .ap
-  | "jnull" => some .jnull | "nj" => some .nj | "empty" => some .empty | "nj4" => some .nj4
-  | "jarr" => some .jarr | "d0" => some .d0 | "dcl" => some .dcl | "dch" => some .dch
-  | "dchp" => some .dchp | "st" => some .st | "ps" => some .ps | "pss" => some .pss
-  | "slow" => some .slow | "serr" => some .serr | "b200" => some .b200
+  | "j" => some .json | "t" => some .text | "n" => some .none
   | _ => none
+
+def parseBody (s : String) : Option Body :=
+  match s with
+  | "x" => some .expected | "xa" => some .expectedAny
+  | "enp" => some (.errObj .notPinned) | "enx" => some (.errObj .near) | "eap" => some (.errObj .already)
+  | "eo" => some (.errObj .other)
+  | "nul" => some .jnull | "obj" => some .otherObj | "bm" => some .badMsg | "bt" => some .badType
+  | "arr" => some .otherJson | "nj" => some .nonJson | "em" => some .empty
+  | _ => none
+
+def parseTransport (s : String) : Option Transport :=
+  match s with
+  | "f" => some .full | "d0" => some .noHeaders | "sh" => some .stallHeaders
+  | "c0" => some (.cut false) | "c1" => some (.cut true) | "sb" => some .stallBody
+  | _ => none
+
+/-- a behaviour token: a named form of the first rounds (`ok`, `e`, `st`, …; the wire variant chooses
+the status code of `nj` / `empty`) or a point of the product space `h.<status>.<ctype>.<body>.<transport>` -/
+def parseBeh (wire : Nat) (s : String) : Option Beh :=
+  match s.splitOn "." with
+  | ["h", st, ct, bd, tr] => do
+    let st ← st.toNat?
+    pure ⟨st, ← parseCType ct, ← parseBody bd, ← parseTransport tr⟩
+  | _ => Beh.named s wire
 
 def parseOp (s : String) : Option Op :=
   if s == "pin" then some .pin else if s == "unpin" then some .unpin
@@ -68,14 +88,15 @@ def tableOf (l : List PState) : Table := fun c => l.getD c .u
 def parseCase (ws : List String) : Option (Input × Output) := do
   let (pre, post) ← splitArrow ws
   match pre, post with
-  | [op, c, depth, mode, src, norig, ud, tab, script, _sw, _wire], [res, trace, swarm, final] =>
+  | [op, c, depth, mode, src, norig, ud, tab, script, _sw, wire], [res, trace, swarm, final] =>
     let tl ← listOf parseState tab
+    let wire ← wire.toNat?
     let i : Input := {
       op := ← parseOp op, n := tl.length, cid := ← c.toNat?, depth := ← depth.toInt?,
       modeRec := ← parseRD mode,
       src := ← (if src == "-" then some none else src.toNat?.map some),
       norig := ← norig.toNat?, unpinDisable := ← bool01 ud,
-      table := tableOf tl, script := ← listOf parseBeh script }
+      table := tableOf tl, script := ← listOf (parseBeh wire) script }
     let fl ← listOf parseState final
     if fl.length != tl.length then none else
     let o : Output := {
@@ -123,9 +144,49 @@ def arm (i : Input) : String :=
   | r :: _ =>
     let k := m.trace.length - 1
     opS ++ "-" ++ reqKind r ++ (if m.trace.length == 3 then "2" else "") ++ "-" ++
-      showCls (if k == 0 && i.op != .unpin then clsFirst (i.beh k) else clsAt r.isAdd (i.beh k)) ++ "-" ++ showRes m.res
+      showCls (match r with | .ls .. => clsFirst (i.beh k) | _ => clsAt r.isAdd (i.beh k)) ++ "-" ++ showRes m.res
+
+def parseAuxOp (s : String) : Option Aux.Op :=
+  match s with
+  | "blockGet" => some .blockGet | "blockPut" => some .blockPut | "resolve" => some .resolve
+  | "swarmPeers" => some .swarmPeers | "repoGC" => some .repoGC | "configKey" => some .configKey
+  | _ => none
+
+def parseAuxRes (s : String) : Option Aux.Res :=
+  match s.splitOn ":" with
+  | ["ok", a, b] => do pure (.ok (← a.toNat?) (← b.toNat?))
+  | ["err"] => some .err | ["errctx"] => some .errctx | ["hang"] => some .hang | ["panic"] => some .panic
+  | _ => none
+
+def showAuxRes : Aux.Res → String
+  | .ok a b => s!"ok:{a}:{b}" | .err => "err" | .errctx => "errctx" | .hang => "hang" | .panic => "panic"
+
+/-- `aux <op> <beh> <variant> <wire> => <res>` -/
+def answerAux (ws : List String) : String :=
+  match splitArrow ws with
+  | some ([op, beh, v, wire], [res]) =>
+    match parseAuxOp op, wire.toNat?, v.toNat?, parseAuxRes res with
+    | some op, some wire, some v, some r =>
+      match parseBeh wire beh with
+      | some b =>
+        let i : Aux.In := ⟨op, b, v⟩
+        let m := Aux.run i
+        let opS := match op with
+          | .blockGet => "blockGet" | .blockPut => "blockPut" | .resolve => "resolve"
+          | .swarmPeers => "swarmPeers" | .repoGC => "repoGC" | .configKey => "configKey"
+        let armS := "aux-" ++ opS ++ "-" ++
+          (if b.status == 200 then "200" else if b.status / 100 == 2 then "2xx" else toString (b.status / 100) ++ "xx") ++ "-" ++
+          (if m.isOk then "ok" else "err")
+        let failed := (Aux.clauses i r).filter (fun c => !c.2)
+        if !failed.isEmpty then "propfail " ++ ",".intercalate (failed.map (·.1)) ++ " arm=" ++ armS
+        else if r != m then "diff arm=" ++ armS ++ " model=" ++ showAuxRes m
+        else "ok arm=" ++ armS
+      | none => "bad-case beh"
+    | _, _, _, _ => "bad-case"
+  | _ => "bad-case"
 
 def answer (ws : List String) : String :=
+  if ws.head? == some "aux" then answerAux ws.tail else
   match parseCase ws with
   | none => "bad-case"
   | some (i, o) =>
